@@ -18,7 +18,8 @@ func zzFullNode(n int) (*zzEnv, *Manager, *zzDetExec, uint64, []*zzSlot, [][]byt
 	e := zzNewEnv(I)
 	ne := make([]bool, n+1)
 	for i := range ne {
-		ne[i] = zzsym.Bool("nonempty")
+		// (whether the already applied tip block is empty is irrelevant)
+		ne[i] = i > 0 && zzsym.Bool("nonempty")
 	}
 	rootBefore := zzsym.BytesN("rootHm1", 2)
 	slots, roots := e.zzProposerChain(H-1, n+1, ne, rootBefore)
@@ -46,17 +47,28 @@ func ZZ_C02_deliveries() {
 	equalTxs := len(P[0].data.Txs) > 0 && len(P[1].data.Txs) > 0 && bytes.Equal(P[0].data.Txs[0], P[1].data.Txs[0])
 	zzsym.Region("two-blocks-with-equal-tx-lists", equalTxs)
 	gotH, gotD := []bool{false, false}, []bool{false, false}
+	// where the four blobs are on the DA layer (any heights not below the
+	// height the node's persisted scan position)
+	scan0 := zzsym.U64("scan0")
+	zzsym.Assume(scan0 < 1<<40)
+	m.lastState.DAHeight = scan0
+	e.store.state.DAHeight = scan0
+	hAt := []uint64{zzsym.U64("h1at"), zzsym.U64("h2at")}
+	dAt := []uint64{zzsym.U64("d1at"), zzsym.U64("d2at")}
+	for k := 0; k < 2; k++ {
+		zzsym.Assume(hAt[k] >= scan0 && hAt[k] < 1<<41 && dAt[k] >= scan0 && dAt[k] < 1<<41)
+	}
 	nh := zzsym.Pick("nheaders", zzC02Len+1)
 	for i := 0; i < nh; i++ {
 		k := zzsym.Pick("hdr", 2)
 		gotH[k] = true
-		m.headerInCh <- NewHeaderEvent{zzCopyHeader(P[k].header), zzsym.U64("hda")}
+		m.headerInCh <- NewHeaderEvent{zzCopyHeader(P[k].header), hAt[k]}
 	}
 	nd := zzsym.Pick("ndata", zzC02Len+1)
 	for i := 0; i < nd; i++ {
 		k := zzsym.Pick("dat", 2)
 		gotD[k] = true
-		m.dataInCh <- NewDataEvent{zzCopyData(P[k].data), zzsym.U64("dda")}
+		m.dataInCh <- NewDataEvent{zzCopyData(P[k].data), dAt[k]}
 	}
 	ctx, cancel := context.WithCancel(context.Background())
 	errCh := make(chan error, 4)
@@ -90,9 +102,33 @@ func ZZ_C02_deliveries() {
 			zzsym.Assert(ex.calls[k].height == h, "blocks-applied-in-height-order")
 		}
 	}
+	zzRestartScan(e, got, H, hAt, dAt, P)
 	if got > H {
 		zzsym.Reach("applied")
 		zzsym.Assert(bytes.Equal(m.lastState.AppHash, roots[got-H-1]), "same-state-root-as-proposer")
 		zzsym.Assert(m.lastState.LastBlockHeight == got && e.store.state.LastBlockHeight == got, "state-height-is-chain-height")
+	}
+}
+
+// zzRestartScan: a clean stop and restart (the real NewManager on the
+// persisted image) must resume the DA scan at or below every DA height that
+// still holds a blob of a block the node has not applied yet -- otherwise
+// those blobs are never read again and the node cannot converge.
+func zzRestartScan(e *zzEnv, got, H uint64, hAt, dAt []uint64, P []*zzSlot) {
+	e2 := *e
+	e2.store = e.store.reopen()
+	m2, err := NewManager(context.Background(), nil, e.cfg, e.gen, e2.store, &zzDetExec{}, e.seq, nil, m0logger(), nil, nil, e.hb, e.db, NopMetrics(), 1, 1, DefaultManagerOptions())
+	zzsym.Assert(err == nil, "restart-after-clean-stop")
+	if err != nil {
+		return
+	}
+	resume := m2.daHeight.Load()
+	for k := 0; k < 2; k++ {
+		if H+uint64(k)+1 > got {
+			zzsym.Assert(resume <= hAt[k], "restart-rescans-da-heights-of-unapplied-headers")
+			if len(P[k].data.Txs) > 0 {
+				zzsym.Assert(resume <= dAt[k], "restart-rescans-da-heights-of-unapplied-data")
+			}
+		}
 	}
 }
